@@ -183,6 +183,8 @@ pub fn run(ctx: &mut Ctx) {
     // wrapped or clamped value
     crate::c15::decode_integers(ctx, "C02", true);
     // hidden state: every ordered pair of operation calls on a fresh thread against the lone call (no model involved)
-    let hist_calls = crate::histpairs::calls_ops(!ctx.thorough(), &|_| true);
+    let hist_calls = crate::histpairs::calls_ops(true, &|_| true);
     crate::histpairs::pairwise(ctx, "C02", "all_operations", hist_calls);
+    let hist_calls_full = crate::histpairs::calls_ops(false, &|_| true);
+    crate::histpairs::pairwise_same_thread(ctx, "C02", "all_operations", hist_calls_full);
 }
